@@ -127,6 +127,11 @@ pub trait Check: Sync {
     fn max_shrink_iters(&self) -> u32 {
         4000
     }
+    /// check-specific minimisation of a failing case after proptest's own shrinking (used where
+    /// one evaluation is too expensive for proptest's step-by-step shrinking)
+    fn minimize(&self, _case: &Self::Case, _sig: &str) -> Option<Self::Case> {
+        None
+    }
 }
 
 #[derive(Debug, Clone, serde::Deserialize)]
@@ -353,6 +358,13 @@ pub fn drive<C: Check>(c: &C, tier: Tier, seed: u64) -> i32 {
         }
     }
 
+    for f in failures.iter_mut() {
+        if let Ok(case) = serde_json::from_value::<C::Case>(f.case.clone()) {
+            if let Some(m) = c.minimize(&case, &f.sig) {
+                f.case = serde_json::to_value(&m).unwrap();
+            }
+        }
+    }
     let wall = t0.elapsed().as_secs_f64();
     // 3. evidence
     let mut coverage = json!({
